@@ -15,6 +15,8 @@ import (
 	"context"
 	"crypto/sha256"
 	"encoding/hex"
+	"encoding/json"
+	"errors"
 	"fmt"
 	"io"
 	"math/rand"
@@ -36,6 +38,7 @@ import (
 	rhp4 "go.sia.tech/coreutils/rhp/v4"
 	"go.sia.tech/hostd/v2/host/accounts"
 	"go.sia.tech/hostd/v2/host/contracts"
+	"go.sia.tech/hostd/v2/host/settings"
 	"go.sia.tech/hostd/v2/host/settings/pin"
 	"go.sia.tech/hostd/v2/webhooks"
 )
@@ -132,6 +135,9 @@ type verifWorld struct {
 	budgets  map[int]*accounts.Budget
 	nextBud  int
 	setValue uint64
+	noFaults  bool // directed cases: no injected faults
+	armed     bool // a database fault is armed for the running operation
+	pinFailed bool // the last pin update failed in the store (its in-memory copy is ahead)
 }
 
 var verifScopeNames = map[string]int{"alerts": 1, "info": 2, "warning": 3, "wallet": 4, "test": 5, "error": 6}
@@ -190,6 +196,12 @@ func (w *verifWorld) snapshot(n *verifNode) map[string]string {
 			cc, err := n.contracts.V2Contract(c.id)
 			cc.V2FileContract.RenterSignature, cc.V2FileContract.HostSignature = types.Signature{}, types.Signature{}
 			out[fmt.Sprintf("contracts.Manager.V2Contract(#%d)", c.num)] = verifJSON(cc) + fmt.Sprint(err)
+			if rs, unlock, err := n.contracts.LockV2Contract(c.id); err != nil {
+				out[fmt.Sprintf("contracts.Manager.LockV2Contract(#%d)", c.num)] = "ERR " + err.Error()
+			} else {
+				out[fmt.Sprintf("contracts.Manager.LockV2Contract(#%d)", c.num)] = fmt.Sprintf("roots %s renewed %v revisable %v revision %d", w.rootsTerm(rs.Roots), rs.Renewed, rs.Revisable, rs.Revision.RevisionNumber)
+				unlock()
+			}
 		} else {
 			cc, err := n.contracts.Contract(c.id)
 			out[fmt.Sprintf("contracts.Manager.Contract(#%d)", c.num)] = verifJSON(cc) + fmt.Sprint(err)
@@ -225,6 +237,7 @@ func (w *verifWorld) snapshot(n *verifNode) map[string]string {
 	out["settings.ConfigManager.RHP2Settings"] = verifJSON(r2) + fmt.Sprint(err)
 	ps, err := n.store.PinnedSettings(context.Background())
 	out["Store.PinnedSettings"] = verifJSON(ps) + fmt.Sprint(err)
+	out["pin.Manager.Pinned"] = verifJSON(n.pins.Pinned(context.Background()))
 	// webhooks
 	hs, err := n.webhooks.Webhooks()
 	sort.Slice(hs, func(i, j int) bool { return hs[i].ID < hs[j].ID })
@@ -374,6 +387,8 @@ func (w *verifWorld) restart(abrupt bool) {
 	after := w.snapshot(w.n)
 	afterD := w.deliveries(w.n)
 	w.budgets = map[int]*accounts.Budget{}
+	pinFailed := w.pinFailed
+	w.pinFailed = false
 	var keys []string
 	for k := range before {
 		keys = append(keys, k)
@@ -385,6 +400,16 @@ func (w *verifWorld) restart(abrupt bool) {
 		}
 		sig := "restart-changes:" + strings.SplitN(k, "(", 2)[0]
 		// classify the root-cache findings
+		if k == "pin.Manager.Pinned" && pinFailed {
+			sig = "pin-update-cache-before-store"
+		}
+		if strings.HasPrefix(k, "contracts.Manager.LockV2Contract(#") {
+			// the roots a locked contract reports come from the same cache as SectorRoots
+			k2 := strings.Replace(k, "LockV2Contract", "SectorRoots", 1)
+			if before[k2] != after[k2] {
+				continue
+			}
+		}
 		if strings.HasPrefix(k, "contracts.Manager.SectorRoots(#") {
 			var num int
 			fmt.Sscanf(k, "contracts.Manager.SectorRoots(#%d)", &num)
@@ -478,9 +503,46 @@ func (w *verifWorld) signV2(fc *types.V2FileContract) {
 	fc.HostSignature = w.hostKey.SignHash(h)
 }
 
+// ---- failing operations: a store call that fails after the manager's own checks passed.
+// maybeFault arms, for one operation in four, the failure of one of its next database calls.
+func (w *verifWorld) maybeFault() {
+	if !w.noFaults && w.rng.Intn(4) == 0 {
+		w.n.ctl.Arm(w.rng.Intn(10), verifFaultHard)
+		w.armed = true
+	}
+}
+
+// settle disarms the injector and says whether it fired.
+func (w *verifWorld) settle() bool {
+	if !w.armed {
+		return false
+	}
+	w.armed = false
+	_, _, fired := w.n.ctl.Disarm()
+	return fired
+}
+
+// failedOp records an operation that returned an error; whatever it was, the host must
+// look (now and after a restart) as if it had not been attempted.
+func (w *verifWorld) failedOp(kind string, fired bool) {
+	w.step("Failed", "ODone false")
+	if fired {
+		w.em.Count("failed-op:" + kind + " (injected database fault)")
+	} else {
+		w.em.Count("failed-op:" + kind + " (store rejects it)")
+	}
+}
+
+func (w *verifWorld) unknownRoot() types.Hash256 {
+	var r types.Hash256
+	w.rng.Read(r[:])
+	return r
+}
+
 func (w *verifWorld) form(v2 bool, wend uint64) {
 	c := w.newContract(v2, wend)
 	var err error
+	w.maybeFault()
 	if v2 {
 		txn := types.V2Transaction{FileContracts: []types.V2FileContract{c.fc}}
 		c.id = txn.V2FileContractID(txn.ID(), 0)
@@ -488,10 +550,13 @@ func (w *verifWorld) form(v2 bool, wend uint64) {
 	} else {
 		err = w.n.contracts.AddContract(c.rev, []types.Transaction{{ArbitraryData: [][]byte{{1}}}}, types.Siacoins(2), contracts.Usage{RPCRevenue: types.Siacoins(1)})
 	}
-	if err == nil {
-		w.cs = append(w.cs, c)
+	fired := w.settle()
+	if err != nil {
+		w.failedOp("FormC", fired)
+		return
 	}
-	w.step(fmt.Sprintf("FormC %d%%N %s %d%%N", c.num, coqBool(v2), wend), "ODone "+coqBool(err == nil))
+	w.cs = append(w.cs, c)
+	w.step(fmt.Sprintf("FormC %d%%N %s %d%%N", c.num, coqBool(v2), wend), "ODone true")
 	w.em.Count(fmt.Sprintf("op:FormC v2=%v", v2))
 }
 
@@ -514,8 +579,12 @@ func (w *verifWorld) revise(v2 bool) {
 	if c == nil || len(w.sectors) == 0 {
 		return
 	}
+	// one revision in six refers to a sector the host does not store: every check of the
+	// manager passes and the store call fails half-way
+	bogus := !w.noFaults && w.rng.Intn(6) == 0
 	cur := w.n.contracts.SectorRoots(c.id)
 	var err error
+	var fired bool
 	var final []types.Hash256
 	if v2 {
 		final = append([]types.Hash256(nil), cur...)
@@ -533,13 +602,20 @@ func (w *verifWorld) revise(v2 bool) {
 				final = append(final, w.sectors[w.rng.Intn(len(w.sectors))])
 			}
 		}
+		if bogus {
+			final = append(final, w.unknownRoot())
+		}
 		fc := c.fc
 		fc.RevisionNumber++
 		fc.Filesize = uint64(len(final)) * proto4.SectorSize
 		fc.Capacity = fc.Filesize
 		fc.FileMerkleRoot = rhp2.MetaRoot(final)
 		w.signV2(&fc)
+		if !bogus {
+			w.maybeFault()
+		}
 		err = w.n.contracts.ReviseV2Contract(c.id, fc, final, proto4.Usage{Storage: types.Siacoins(1)})
+		fired = w.settle()
 		if err == nil {
 			c.fc = fc
 		}
@@ -560,22 +636,33 @@ func (w *verifWorld) revise(v2 bool) {
 				u.UpdateSector(w.sectors[w.rng.Intn(len(w.sectors))], uint64(w.rng.Intn(int(u.SectorCount()))))
 			}
 		}
+		if bogus {
+			u.AppendSector(w.unknownRoot())
+		}
 		rev := c.rev
 		rev.Revision.RevisionNumber++
 		rev.Revision.Filesize = u.SectorCount() * proto4.SectorSize
 		rev.Revision.FileMerkleRoot = u.MerkleRoot()
 		final = u.SectorRoots()
+		if !bogus {
+			w.maybeFault()
+		}
 		err = u.Commit(rev, contracts.Usage{StorageRevenue: types.Siacoins(1)})
+		fired = w.settle()
 		u.Close()
 		if err == nil {
 			c.rev = rev
 		}
 	}
-	if err == nil && len(final) > 0 {
+	if err != nil {
+		w.failedOp(fmt.Sprintf("Commit v2=%v", v2), fired)
+		return
+	}
+	if len(final) > 0 {
 		c.hadRoots = true
 	}
-	w.step(fmt.Sprintf("Commit %d%%N %s", c.num, w.rootsTerm(final)), "ODone "+coqBool(err == nil))
-	w.em.Count(fmt.Sprintf("op:Commit v2=%v ok=%v", v2, err == nil))
+	w.step(fmt.Sprintf("Commit %d%%N %s", c.num, w.rootsTerm(final)), "ODone true")
+	w.em.Count(fmt.Sprintf("op:Commit v2=%v", v2))
 }
 
 func (w *verifWorld) renew(v2 bool) {
@@ -594,24 +681,39 @@ func (w *verifWorld) renew(v2 bool) {
 			Parent:     types.V2FileContractElement{ID: c.id, V2FileContract: c.fc},
 			Resolution: &types.V2FileContractRenewal{NewContract: nfc, FinalRenterOutput: c.fc.RenterOutput, FinalHostOutput: c.fc.HostOutput},
 		}}}}}
+		w.maybeFault()
 		err = w.n.contracts.RenewV2Contract(set, proto4.Usage{RPC: types.Siacoins(1)})
 	} else {
 		roots := w.n.contracts.SectorRoots(c.id)
+		// one renewal in six reuses the id of an existing contract: the store rejects it
+		if others := w.cs; !w.noFaults && w.rng.Intn(6) == 0 {
+			for _, o := range others {
+				if !o.v2 && o != c {
+					nc.rev.Revision.ParentID = o.id
+					break
+				}
+			}
+		}
+		nc.id = nc.rev.Revision.ParentID
 		nc.rev.Revision.Filesize = uint64(len(roots)) * proto4.SectorSize
 		nc.rev.Revision.FileMerkleRoot = rhp2.MetaRoot(roots)
 		clearing := c.rev
 		clearing.Revision.RevisionNumber = types.MaxRevisionNumber
 		clearing.Revision.Filesize = 0
 		clearing.Revision.FileMerkleRoot = types.Hash256{}
+		w.maybeFault()
 		err = w.n.contracts.RenewContract(nc.rev, clearing, []types.Transaction{{ArbitraryData: [][]byte{{2}}}}, types.Siacoins(2), contracts.Usage{RPCRevenue: types.Siacoins(1)}, contracts.Usage{RPCRevenue: types.Siacoins(1)})
 	}
-	if err == nil {
-		c.renewed = true
-		nc.hadRoots = c.hadRoots
-		w.cs = append(w.cs, nc)
+	fired := w.settle()
+	if err != nil {
+		w.failedOp(fmt.Sprintf("RenewC v2=%v", v2), fired)
+		return
 	}
-	w.step(fmt.Sprintf("RenewC %d%%N %d%%N %s %d%%N", c.num, nc.num, coqBool(v2), nc.wend), "ODone "+coqBool(err == nil))
-	w.em.Count(fmt.Sprintf("op:RenewC v2=%v ok=%v", v2, err == nil))
+	c.renewed = true
+	nc.hadRoots = c.hadRoots
+	w.cs = append(w.cs, nc)
+	w.step(fmt.Sprintf("RenewC %d%%N %d%%N %s %d%%N", c.num, nc.num, coqBool(v2), nc.wend), "ODone true")
+	w.em.Count(fmt.Sprintf("op:RenewC v2=%v", v2))
 }
 
 func (w *verifWorld) mine(nb int) {
@@ -628,20 +730,27 @@ func (w *verifWorld) mine(nb int) {
 	w.em.Count("op:Mine")
 }
 
-func (w *verifWorld) registerHook() {
+func (w *verifWorld) randScopes() []string {
 	var scopes []string
 	for i := 0; i < 1+w.rng.Intn(3); i++ {
 		scopes = append(scopes, verifScopePool[w.rng.Intn(len(verifScopePool))])
 	}
+	return scopes
+}
+
+func (w *verifWorld) registerHook() {
+	scopes := w.randScopes()
 	w.urls++
 	u := w.urls
+	w.maybeFault()
 	h, err := w.n.webhooks.RegisterWebhook(fmt.Sprintf("%s/h%d", w.sink.srv.URL, u), scopes)
-	id := int64(0)
-	if err == nil {
-		id = h.ID
-		w.hooks = append(w.hooks, id)
+	fired := w.settle()
+	if err != nil {
+		w.failedOp("RegisterHook", fired)
+		return
 	}
-	w.step(fmt.Sprintf("RegisterHook %d%%N %s", u, verifScopesTerm(scopes)), fmt.Sprintf("OHook %d%%N", id))
+	w.hooks = append(w.hooks, h.ID)
+	w.step(fmt.Sprintf("RegisterHook %d%%N %s", u, verifScopesTerm(scopes)), fmt.Sprintf("OHook %d%%N", h.ID))
 	w.em.Count("op:RegisterHook")
 }
 
@@ -650,13 +759,11 @@ func (w *verifWorld) updateHook() {
 		return
 	}
 	id := w.hooks[w.rng.Intn(len(w.hooks))]
-	var scopes []string
-	for i := 0; i < 1+w.rng.Intn(3); i++ {
-		scopes = append(scopes, verifScopePool[w.rng.Intn(len(verifScopePool))])
-	}
+	scopes := w.randScopes()
 	w.urls++
 	u := w.urls
 	var err error
+	w.maybeFault()
 	func() {
 		defer func() {
 			if r := recover(); r != nil {
@@ -666,6 +773,10 @@ func (w *verifWorld) updateHook() {
 		}()
 		_, err = w.n.webhooks.UpdateWebhook(id, fmt.Sprintf("%s/h%d", w.sink.srv.URL, u), scopes)
 	}()
+	if fired := w.settle(); fired && err != nil {
+		w.failedOp("UpdateHook", true)
+		return
+	}
 	w.step(fmt.Sprintf("UpdateHook %d%%N %d%%N %s", id, u, verifScopesTerm(scopes)), "ODone "+coqBool(err == nil))
 	w.em.Count(fmt.Sprintf("op:UpdateHook ok=%v", err == nil))
 }
@@ -675,23 +786,121 @@ func (w *verifWorld) removeHook() {
 		return
 	}
 	id := w.hooks[w.rng.Intn(len(w.hooks))]
+	w.maybeFault()
 	err := w.n.webhooks.RemoveWebhook(id)
+	if fired := w.settle(); fired && err != nil {
+		w.failedOp("RemoveHook", true)
+		return
+	}
 	w.step(fmt.Sprintf("RemoveHook %d%%N", id), "ODone "+coqBool(err == nil))
 	w.em.Count("op:RemoveHook")
 }
 
-func (w *verifWorld) setSettings() {
+// setSettings changes a random subset of all fields (all of them when all is set): the
+// first write of a host is an INSERT, every later one an upsert that has to carry each column
+func (w *verifWorld) setSettings(all bool) {
 	w.setValue++
+	v := w.setValue
+	flip := func() bool { return all || w.rng.Intn(2) == 0 }
 	s := w.n.settings.Settings() // the API patches the current settings
-	s.IngressLimit = w.setValue
-	s.ContractPrice = types.Siacoins(uint32(1 + w.rng.Intn(5)))
-	s.MaxRegistryEntries = 16
-	err := w.n.settings.UpdateSettings(s)
-	if w.rng.Intn(2) == 0 {
-		w.n.store.UpdatePinnedSettings(context.Background(), pin.PinnedSettings{Currency: "usd", Threshold: 0.1, Storage: pin.Pin{Pinned: true, Value: float64(w.setValue)}})
+	s.IngressLimit = v
+	if flip() {
+		s.AcceptingContracts = !s.AcceptingContracts
 	}
-	w.step(fmt.Sprintf("SetSettings %d%%N", w.setValue), "ODone "+coqBool(err == nil))
+	if flip() {
+		s.NetAddress = fmt.Sprintf("host%d.example", v)
+	}
+	if flip() {
+		s.MaxContractDuration = 1000 + v
+	}
+	if flip() {
+		s.WindowSize = 100 + v
+	}
+	if flip() {
+		s.ContractPrice = types.Siacoins(uint32(1 + v%7))
+	}
+	if flip() {
+		s.BaseRPCPrice = types.NewCurrency64(1000 + v)
+	}
+	if flip() {
+		s.SectorAccessPrice = types.NewCurrency64(2000 + v)
+	}
+	if flip() {
+		s.CollateralMultiplier = 1.5 + float64(v%5)
+	}
+	if flip() {
+		s.MaxCollateral = types.Siacoins(uint32(100 + v))
+	}
+	if flip() {
+		s.StoragePrice = types.NewCurrency64(3000 + v)
+	}
+	if flip() {
+		s.EgressPrice = types.NewCurrency64(4000 + v)
+	}
+	if flip() {
+		s.IngressPrice = types.NewCurrency64(5000 + v)
+	}
+	if flip() {
+		s.PriceTableValidity = time.Duration(10+v) * time.Minute
+	}
+	if flip() {
+		s.MaxRegistryEntries = 16 + v
+	}
+	if flip() {
+		s.AccountExpiry = time.Duration(24+v) * time.Hour
+	}
+	if flip() {
+		s.MaxAccountBalance = types.Siacoins(uint32(10 + v))
+	}
+	if flip() {
+		s.EgressLimit = 7000 + v
+	}
+	if flip() {
+		s.SectorCacheSize = uint32(v % 5)
+	}
+	w.maybeFault()
+	err := w.n.settings.UpdateSettings(s)
+	fired := w.settle()
+	if err != nil {
+		w.failedOp("SetSettings", fired)
+		return
+	}
+	w.step(fmt.Sprintf("SetSettings %d%%N", v), "ODone true")
 	w.em.Count("op:SetSettings")
+}
+
+// pinUpdate stores new pinned settings through the pin manager; every flag and value is
+// drawn independently (all flags inverted when invert is set)
+func (w *verifWorld) pinUpdate(invert bool) {
+	cur := w.n.pins.Pinned(context.Background())
+	mk := func(old pin.Pin) pin.Pin {
+		p := pin.Pin{Pinned: w.rng.Intn(2) == 0, Value: float64(1+w.rng.Intn(1000)) / 8}
+		if invert {
+			p.Pinned = !old.Pinned
+		}
+		return p
+	}
+	p := pin.PinnedSettings{
+		Currency:      []string{"usd", "eur", "jpy"}[w.rng.Intn(3)],
+		Threshold:     float64(w.rng.Intn(100)) / 100,
+		Storage:       mk(cur.Storage),
+		Ingress:       mk(cur.Ingress),
+		Egress:        mk(cur.Egress),
+		MaxCollateral: mk(cur.MaxCollateral),
+	}
+	w.maybeFault()
+	err := w.n.pins.Update(context.Background(), p)
+	fired := w.settle()
+	// the exchange rate source of the harness is unreachable: the settings are stored, the prices are not refreshed
+	if err != nil && !errors.Is(err, errVerifForex) {
+		if fired {
+			w.pinFailed = true
+		}
+		w.em.Count(fmt.Sprintf("failed-op:PinUpdate fired=%v", fired))
+		return
+	}
+	w.pinFailed = false
+	w.em.Count("op:PinUpdate")
 }
 
 func (w *verifWorld) credit() {
@@ -709,12 +918,16 @@ func (w *verifWorld) credit() {
 	amt := uint64(1000 + w.rng.Intn(5000))
 	rev := c.rev
 	rev.Revision.RevisionNumber++
+	w.maybeFault()
 	_, err := w.n.accounts.Credit(accounts.FundAccountWithContract{Account: w.accts[ai], Cost: types.NewCurrency64(1), Amount: types.NewCurrency64(amt), Revision: rev, Expiration: time.Now().Add(time.Hour)}, false)
-	if err == nil {
-		c.rev = rev
+	fired := w.settle()
+	if err != nil {
+		w.failedOp("Credit", fired)
+		return
 	}
-	w.step(fmt.Sprintf("Credit %d%%N %d%%N", ai, amt), "ODone "+coqBool(err == nil))
-	w.em.Count(fmt.Sprintf("op:Credit ok=%v", err == nil))
+	c.rev = rev
+	w.step(fmt.Sprintf("Credit %d%%N %d%%N", ai, amt), "ODone true")
+	w.em.Count("op:Credit")
 }
 
 func (w *verifWorld) budgetOp() {
@@ -722,7 +935,12 @@ func (w *verifWorld) budgetOp() {
 	case k < 2 && len(w.budgets) < 3:
 		ai := w.rng.Intn(len(w.accts))
 		amt := uint64(100 + w.rng.Intn(3000))
+		w.maybeFault()
 		b, err := w.n.accounts.Budget(w.accts[ai], types.NewCurrency64(amt))
+		if fired := w.settle(); fired && err != nil {
+			w.failedOp("OpenBudget", true)
+			return
+		}
 		id := w.nextBud
 		w.nextBud++
 		if err == nil {
@@ -748,12 +966,20 @@ func (w *verifWorld) closeBudget() {
 				spend = uint64(w.rng.Int63n(int64(rem.Big().Uint64()) + 1))
 			}
 			b.Spend(accounts.Usage{RPCRevenue: types.NewCurrency64(spend)})
+			w.maybeFault()
 			err := b.Commit()
+			fired := w.settle()
 			if err != nil {
 				b.Rollback()
 			}
-			w.step(fmt.Sprintf("CommitBudget %d%%N %d%%N", id, spend), "ODone "+coqBool(err == nil))
-			w.em.Count(fmt.Sprintf("op:CommitBudget ok=%v", err == nil))
+			if err != nil && fired {
+				// the debit failed in the store: the RPC handler rolls the budget back
+				w.step(fmt.Sprintf("RollbackBudget %d%%N", id), "ODone true")
+				w.em.Count("failed-op:CommitBudget (injected database fault)")
+			} else {
+				w.step(fmt.Sprintf("CommitBudget %d%%N %d%%N", id, spend), "ODone "+coqBool(err == nil))
+				w.em.Count(fmt.Sprintf("op:CommitBudget ok=%v", err == nil))
+			}
 		}
 		delete(w.budgets, id)
 		return
@@ -765,7 +991,9 @@ func (w *verifWorld) regPut() {
 	e := rhp3.RegistryEntry{RegistryKey: rhp3.RegistryKey{PublicKey: w.renterKey.PublicKey(), Tweak: types.Hash256{byte(w.regKeys)}},
 		RegistryValue: rhp3.RegistryValue{Revision: 1, Type: rhp3.EntryTypeArbitrary, Data: []byte{byte(w.regKeys)}}}
 	e.Signature = w.renterKey.SignHash(e.Hash())
+	w.maybeFault()
 	_, err := w.n.registry.Put(e, 100000)
+	w.settle()
 	w.em.Count(fmt.Sprintf("op:RegistryPut ok=%v", err == nil))
 }
 
@@ -775,9 +1003,98 @@ func (w *verifWorld) setReadOnly() {
 	}
 	id := w.vols[w.rng.Intn(len(w.vols))]
 	ro := w.rng.Intn(2) == 0
+	w.maybeFault()
 	err := w.n.volumes.SetReadOnly(id, ro)
+	if fired := w.settle(); fired && err != nil {
+		w.failedOp("SetRO", true)
+		return
+	}
 	w.step(fmt.Sprintf("SetRO %d%%N %s", id, coqBool(ro)), "ODone "+coqBool(err == nil))
 	w.em.Count("op:SetRO")
+}
+
+// verifSettingsRoundTrip: settings and pinned settings written several times (every field
+// different each time, every flag toggled in both directions), the store reopened after
+// each write, and what it returns compared field by field with what was written last.
+func verifSettingsRoundTrip(t *testing.T, em *verifEmitter, dir string) {
+	path := filepath.Join(dir, "roundtrip.sqlite3")
+	mkSettings := func(v uint64) settings.Settings {
+		odd := v%2 == 1
+		s := settings.Settings{
+			AcceptingContracts: odd, NetAddress: fmt.Sprintf("rt%d.example:9982", v), MaxContractDuration: 100 + v, WindowSize: 10 + v,
+			ContractPrice: types.NewCurrency64(11 + v), BaseRPCPrice: types.NewCurrency64(22 + v), SectorAccessPrice: types.NewCurrency64(33 + v),
+			CollateralMultiplier: 1.25 + float64(v), MaxCollateral: types.NewCurrency64(44 + v),
+			StoragePrice: types.NewCurrency64(55 + v), EgressPrice: types.NewCurrency64(66 + v), IngressPrice: types.NewCurrency64(77 + v),
+			PriceTableValidity: time.Duration(v+1) * time.Minute, MaxRegistryEntries: 88 + v,
+			AccountExpiry: time.Duration(v+1) * time.Hour, MaxAccountBalance: types.NewCurrency64(99 + v),
+			IngressLimit: 111 + v, EgressLimit: 222 + v, SectorCacheSize: uint32(3 + v),
+		}
+		s.DDNS.Provider = []string{"duckdns", "noip"}[v%2]
+		s.DDNS.IPv4, s.DDNS.IPv6 = odd, !odd
+		s.DDNS.Options = []byte(fmt.Sprintf(`{"token":"t%d"}`, v))
+		return s
+	}
+	mkPinned := func(v uint64) pin.PinnedSettings {
+		odd := v%2 == 1
+		return pin.PinnedSettings{Currency: []string{"usd", "eur"}[v%2], Threshold: float64(v+1) / 16,
+			Storage: pin.Pin{Pinned: odd, Value: 1.5 + float64(v)}, Ingress: pin.Pin{Pinned: odd, Value: 2.5 + float64(v)},
+			Egress: pin.Pin{Pinned: odd, Value: 3.5 + float64(v)}, MaxCollateral: pin.Pin{Pinned: odd, Value: 4.5 + float64(v)}}
+	}
+	fields := func(v any) map[string]string {
+		var m map[string]any
+		json.Unmarshal([]byte(verifJSON(v)), &m)
+		out := map[string]string{}
+		var walk func(prefix string, x any)
+		walk = func(prefix string, x any) {
+			if mm, ok := x.(map[string]any); ok {
+				for k, y := range mm {
+					walk(prefix+"."+k, y)
+				}
+				return
+			}
+			out[prefix] = fmt.Sprint(x)
+		}
+		walk("", m)
+		return out
+	}
+	for v := uint64(0); v < 4; v++ {
+		s, err := OpenDatabase(path, verifNopLog())
+		if err != nil {
+			t.Fatal(err)
+		}
+		ws, wp := mkSettings(v), mkPinned(v)
+		if err := s.UpdateSettings(ws); err != nil {
+			t.Fatal(err)
+		} else if err := s.UpdatePinnedSettings(context.Background(), wp); err != nil {
+			t.Fatal(err)
+		}
+		s.Close()
+		s, err = OpenDatabase(path, verifNopLog())
+		if err != nil {
+			t.Fatal(err)
+		}
+		gs, err1 := s.Settings()
+		gp, err2 := s.PinnedSettings(context.Background())
+		s.Close()
+		if err1 != nil || err2 != nil {
+			em.Monitor("settings-unreadable-after-reopen", fmt.Sprint(err1, err2))
+			continue
+		}
+		ws.Revision = v // 0 on insert, +1 per update
+		want, got := fields(ws), fields(gs)
+		for k, x := range want {
+			if got[k] != x {
+				em.Monitor("settings-field-lost-after-reopen:"+k, fmt.Sprintf("update #%d wrote %s=%s, the reopened store returns %s", v, k, x, got[k]))
+			}
+		}
+		want, got = fields(wp), fields(gp)
+		for k, x := range want {
+			if got[k] != x {
+				em.Monitor("pinned-settings-field-lost-after-reopen:"+k, fmt.Sprintf("update #%d wrote %s=%s, the reopened store returns %s", v, k, x, got[k]))
+			}
+		}
+		em.Count("settings-roundtrip")
+	}
 }
 
 func TestVerifC18(t *testing.T) {
@@ -804,6 +1121,7 @@ func TestVerifC18(t *testing.T) {
 			w.accts4 = append(w.accts4, proto4.Account(verifKey(rng).PublicKey()))
 		}
 		w.n = verifOpenNode(t, dir, w.hostKey, cm, true, 3)
+		w.noFaults = id < 3
 		desc := "generated history with restarts"
 		em.BeginCase(id, desc)
 		// every history starts with a volume, stored sectors and a few blocks
@@ -812,9 +1130,10 @@ func TestVerifC18(t *testing.T) {
 			w.writeSector()
 		}
 		w.mine(2)
-		w.setSettings()
+		w.setSettings(false)
 		switch id {
 		case 0:
+			verifSettingsRoundTrip(t, em, dir)
 			// directed: a v1 contract with roots runs past its proof window (the store drops
 			// its roots, the manager keeps them until the next start)
 			w.form(false, w.height()+4)
@@ -841,8 +1160,12 @@ func TestVerifC18(t *testing.T) {
 			w.registerHook()
 			w.registerHook()
 			w.updateHook()
-			w.setSettings()
-			w.setSettings()
+			// every settings column and every pinned flag changes after the first write
+			w.setSettings(true)
+			w.setSettings(true)
+			w.pinUpdate(false)
+			w.pinUpdate(true)
+			w.pinUpdate(true)
 			w.form(false, w.height()+40)
 			w.revise(false)
 			w.renew(false)
@@ -873,8 +1196,10 @@ func TestVerifC18(t *testing.T) {
 					w.updateHook()
 				case k < 58:
 					w.removeHook()
+				case k < 61:
+					w.setSettings(false)
 				case k < 64:
-					w.setSettings()
+					w.pinUpdate(w.rng.Intn(2) == 0)
 				case k < 70:
 					w.credit()
 				case k < 78:
